@@ -602,4 +602,159 @@ theorem rangeSeq_multi (t : RangeTy) (c c' : J) (cs : List J) (f : Range) (rs : 
   | nil => simp at hl
   | cons r rs => rfl
 
+/-! ### an accepted specification is never empty -/
+
+/-- the emptiness check of `Range::new` -/
+def possible : Option Dec → Bound → Prop
+  | some x, .excl e => Dec.le e x = false
+  | some x, .incl e => Dec.lt e x = false
+  | _, _ => True
+
+theorem newSimple_ok_shape (t : RangeTy) (s : Str) (r : Range) (h : newSimple t s = .ok r) :
+    (∃ v, r = .exact v) ∨ ∃ lo b, r = .bounds lo b ∧ possible lo b := by
+  simp only [newSimple] at h
+  split at h
+  · rename_i start stop _
+    split at h
+    · cases h
+    · cases h
+    · rename_i lo _
+      split at h
+      · cases h
+      · cases h
+      · rename_i b _
+        split at h
+        all_goals
+          split at h
+          · cases h
+          · injection h with h
+            subst h
+            right
+            refine ⟨_, _, rfl, ?_⟩
+            first
+              | (simp_all [possible]; done)
+              | (cases lo <;> cases b <;> simp_all [possible])
+  · split at h
+    · injection h with h; exact Or.inl ⟨_, h.symm⟩
+    · cases h
+
+theorem possible_nonempty (lo : Option Dec) (b : Bound) (h : possible lo b) : ∃ n, doMatch (.bounds lo b) n = true := by
+  cases lo with
+  | some x =>
+    refine ⟨x, ?_⟩
+    cases b with
+    | incl e =>
+      simp only [possible] at h
+      simp [doMatch, dec_not_lt, dec_le_refl, ← dec_not_lt e x, h]
+    | excl e =>
+      simp only [possible] at h
+      simp [doMatch, dec_not_lt, dec_le_refl, dec_lt_eq_not_le x e, h]
+    | unb => simp [doMatch, dec_not_lt, dec_le_refl]
+  | none =>
+    cases b with
+    | incl e => exact ⟨e, by simp [doMatch, dec_le_refl]⟩
+    | excl e =>
+      refine ⟨⟨e.m - 1, e.e⟩, ?_⟩
+      simp only [doMatch, Bool.true_and, Dec.lt, decide_eq_true_eq]
+      have := pow10_pos e.e
+      exact Int.mul_lt_mul_of_pos_right (by omega) this
+    | unb => exact ⟨⟨0, 0⟩, by simp [doMatch]⟩
+
+def NonEmpty (r : Range) : Prop := ∃ n, doMatch r n = true
+
+theorem newSimple_nonempty (t : RangeTy) (s : Str) (r : Range) (h : newSimple t s = .ok r) : NonEmpty r := by
+  rcases newSimple_ok_shape t s r h with ⟨v, rfl⟩ | ⟨lo, b, rfl, hp⟩
+  · exact ⟨v, by simp [doMatch, Dec.eq]⟩
+  · exact possible_nonempty lo b hp
+
+theorem newPiece_nonempty (t : RangeTy) (s : Str) (r : Range) (h : newPiece t s = .ok r) : NonEmpty r := by
+  simp only [newPiece] at h
+  split at h
+  · injection h with h; subst h; exact ⟨⟨0, 0⟩, rfl⟩
+  · exact newSimple_nonempty t _ r h
+
+theorem multi_nonempty (l : List Range) (x : Range) (hx : x ∈ l) (hne : NonEmpty x) : NonEmpty (flatten (.multi l)) := by
+  obtain ⟨n, hn⟩ := hne
+  refine ⟨n, ?_⟩
+  rw [doMatch_flatten]
+  simp only [doMatch, doMatchAny_eq_any]
+  exact List.any_eq_true.mpr ⟨x, hx, hn⟩
+
+theorem new_go_nonempty (t : RangeTy) : ∀ (ps : List Str) (acc : List Range) (r : Range),
+    Ranges.new.go t ps acc = .ok r → (∀ a ∈ acc, NonEmpty a) → (acc ≠ [] ∨ ps ≠ []) → NonEmpty r
+  | [], acc, r, h, hacc, hne => by
+    simp only [Ranges.new.go] at h
+    injection h with h
+    subst h
+    cases acc with
+    | nil => simp at hne
+    | cons a as => exact multi_nonempty _ a (by simp) (hacc a (by simp))
+  | p :: ps, acc, r, h, hacc, _ => by
+    simp only [Ranges.new.go] at h
+    cases hp : newPiece t p with
+    | ok x =>
+      rw [hp] at h
+      refine new_go_nonempty t ps (x :: acc) r h ?_ (Or.inl (by simp))
+      intro a ha
+      rcases List.mem_cons.mp ha with rfl | ha
+      · exact newPiece_nonempty t p _ hp
+      · exact hacc a ha
+    | err e => rw [hp] at h; cases h
+    | panic e => rw [hp] at h; cases h
+
+theorem splitC_ne_nil (d : Char) : ∀ (s : Str), splitC d s ≠ []
+  | [] => by simp [splitC]
+  | c :: cs => by
+    simp only [splitC]
+    split
+    · simp
+    · split <;> simp
+
+theorem new_nonempty (t : RangeTy) (s : Str) (r : Range) (h : Ranges.new t s = .ok r) : NonEmpty r := by
+  simp only [Ranges.new] at h
+  split at h
+  · injection h with h; subst h; exact ⟨⟨0, 0⟩, rfl⟩
+  · split at h
+    · exact new_go_nonempty t _ [] r h (by simp) (Or.inr (splitC_ne_nil _ _))
+    · exact newSimple_nonempty t _ r h
+
+/-! ### the decoder's three checks -/
+section
+open Decode
+
+def declAccepted (t : RangeTy) (rs : List Range) : Bool :=
+  !(checkDe rs).1 && !((checkDe rs).2 > 1) && !((checkDe rs).2 == 0 && t.isFloat)
+
+theorem value_arr_ok (fuel : Nat) (top key : Str) (l : List J) (pv : PV)
+    (h : Decode.value (fuel + 1) top false key (.arr l) = .ok pv) :
+    ∃ t bs, pv = .ranges "var_count".toList t bs ∧ bs ≠ [] ∧ declAccepted t (bs.map (·.1)) = true := by
+  unfold Decode.value at h
+  simp only [Bool.false_eq_true, if_false] at h
+  split at h
+  · cases h
+  · rename_i first rest
+    split at h
+    · cases h
+    · cases h
+    · rename_i t bs hstart
+      split at h
+      · cases h
+      · rename_i hne
+        split at h
+        · cases h
+        · split at h
+          · cases h
+          · split at h
+            · cases h
+            · injection h with h
+              refine ⟨t, bs, h.symm, ?_, ?_⟩
+              · intro e; subst e; simp at hne
+              · simp_all [declAccepted]
+                rename_i _ _ himp
+                by_cases hz : (checkDe (List.map (fun x => x.fst) bs)).snd = 0
+                · exact Or.inr (himp hz)
+                · exact Or.inl hz
+
+end
+
 end I18nVerif.Ranges
